@@ -660,7 +660,7 @@ func rInherit(id string) func(w *World, r *Report) {
 				}
 				// only reads
 				for _, ref := range *fa.Referrers() {
-					if u, ok := ref.(*ssa.UnOp); ok && u.Op == token.MUL && isBaselineField(f) {
+					if u, ok := ref.(*ssa.UnOp); ok && u.Op == token.MUL && isBaselineField(f) && !loggedOnly(u) {
 						cfgFields[f] = true
 					}
 				}
@@ -893,6 +893,10 @@ func rC09Readers(w *World, r *Report) {
 					switch x := ref.(type) {
 					case *ssa.If:
 					case *ssa.DebugRef:
+					case *ssa.MakeInterface:
+						if !onlyLogged(x) { // an operand of a debug Logger line says nothing to the parse
+							onlyBranch = false
+						}
 					case *ssa.Store:
 						if _, f2, _, ok := storeField(x); ok && f2 == f {
 							inherit = true
@@ -997,4 +1001,26 @@ func rC08ModeWriters(w *World, r *Report) {
 			ru.Bad("escape/"+n, w.IPos(u.Instr), "address of unknownMode escapes")
 		}
 	}
+}
+
+// loggedOnly: the value is used for nothing but debug Logger lines (every referrer boxes it for a Logger call).
+func loggedOnly(v ssa.Value) bool {
+	refs := v.Referrers()
+	if refs == nil {
+		return false
+	}
+	n := 0
+	for _, r := range *refs {
+		switch x := r.(type) {
+		case *ssa.DebugRef:
+		case *ssa.MakeInterface:
+			if !onlyLogged(x) {
+				return false
+			}
+			n++
+		default:
+			return false
+		}
+	}
+	return n > 0
 }
